@@ -1,9 +1,13 @@
 /-
 C06 — driver handlers (line protocol, see docs/C06.md).  Numbers are lower-case hex without leading
-zeros.  Every line starts `<op> <p> <A> <B>`.  Projective results are printed normalised to affine
-(`x y`) or `O`; the routines returning FALSE for the point at infinity print `O`.
+zeros.  Every line starts `<op> <field> <A> <B>`; `<field>` is the prime p (hex) for `ecp.c`, or
+`b:m:k1:k2:k3` for GF(2^m) = GF(2)[x]/(x^m + x^k1 + x^k2 + x^k3 + 1) and `ec2.c`.
+Projective results are printed normalised to affine (`x y`) or `O`; the routines returning FALSE for
+the point at infinity print `O`.
 -/
 import Bee2V.C06.Wrap
+import Bee2V.C06.Wrap2
+import Bee2V.C06.Core2
 import Bee2V.Base.Proto
 namespace Bee2V.C06.Drv
 open Bee2V.C06 Bee2V.Proto
@@ -18,54 +22,77 @@ def al? : String → Option Al
   | "n" => some .n | "ca" => some .ca | "cb" => some .cb | "ab" => some .ab | "abc" => some .abc
   | _ => none
 
+/-- everything the handlers need about one curve (prime or binary) -/
 structure Ctx where
-  p : Nat
+  bin : Bool
+  p : Nat                     -- prime, or 0
+  f : Fld Nat
   c : Curve Nat
+  o : EcOps (P3 Nat) (P2 Nat)
+  toa : Al → P3 Nat → Option (P2 Nat)
+  dbla : Al → P2 Nat → P3 Nat
+  froma : Al → P2 Nat → P3 Nat
+  negA : Al → P2 Nat → P2 Nat
+  addAA : Al → P2 Nat → P2 Nat → Option (P2 Nat)
+  subAA : Al → P2 Nat → P2 Nat → Option (P2 Nat)
+  isOn : P2 Nat → Bool
 
-def mkCtx (p A B : Nat) : Ctx := { p := p, c := mkCurve (natFld p) (A % p) (B % p) }
+def mkCtx (p A B : Nat) : Ctx :=
+  let c := mkCurve (natFld p) (A % p) (B % p)
+  { bin := false, p := p, f := natFld p, c := c, o := ecOps c, toa := toa c, dbla := dbla c, froma := froma c,
+    negA := negA c, addAA := addAA c, subAA := subAA c, isOn := isOnAW p c }
+
+def mkCtx2 (m md A B : Nat) : Ctx :=
+  let f := gf2Fld md m
+  let c := mkCurve2 f A B
+  { bin := true, p := 0, f := f, c := c, o := ecOps2 c, toa := toa2 c, dbla := dbla2 c, froma := froma2 c,
+    negA := negA2 c, addAA := addAA2 c, subAA := subAA2 c, isOn := isOnAW2 m c }
 
 def showA (a : P2 Nat) : String := natHex a.1 ++ " " ++ natHex a.2
 def showOA : Option (P2 Nat) → String
   | none => "O"
   | some a => showA a
 
-/-- normalisation of a Jacobian triple, computed here (not by the model's `toa`) -/
+/-- normalisation of a projective triple, computed here (not by the model's `toa`):
+    Jacobian `(X/Z², Y/Z³)` for prime curves, Lopez–Dahab `(X/Z, Y/Z²)` for binary ones -/
 def showJ (x : Ctx) (q : P3 Nat) : String :=
-  let f := natFld x.p
-  if q.2.2 % x.p = 0 then "O" else
+  let f := x.f
+  if f.eqb q.2.2 f.zero then "O" else
     let zi := f.inv q.2.2
     let zi2 := f.mul zi zi
-    showA (f.mul q.1 zi2, f.mul q.2.1 (f.mul zi2 zi))
+    if x.bin then showA (f.mul q.1 zi, f.mul q.2.1 zi2)
+    else showA (f.mul q.1 zi2, f.mul q.2.1 (f.mul zi2 zi))
 
-/-- `(x, y, u) ↦ (u²x, u³y, u)` -/
+/-- `(x, y, u) ↦ (u²x, u³y, u)` resp. `(ux, u²y, u)` -/
 def scale (x : Ctx) (a : P2 Nat) (u : Nat) : P3 Nat :=
-  let f := natFld x.p
+  let f := x.f
   let u2 := f.mul u u
-  (f.mul u2 a.1, f.mul (f.mul u2 u) a.2, u % x.p)
+  if x.bin then (f.mul u a.1, f.mul u2 a.2, u)
+  else (f.mul u2 a.1, f.mul (f.mul u2 u) a.2, u % x.p)
 
 def nums (ts : List String) : Option (List Nat) := ts.mapM hexNat?
 
 /-- single operation: `op al args…` (after the curve) -/
 def single (x : Ctx) (op : String) (al : Al) (v : List Nat) : String :=
-  let c := x.c
-  let o := ecOps c
+  let o := x.o
   match op, v with
   | "neg", [a, b, z] => showJ x (o.neg al (a, b, z))
   | "dbl", [a, b, z] => showJ x (o.dbl al (a, b, z))
-  | "tpl", [a, b, z] => showJ x (o.tpl al (a, b, z))
-  | "toa", [a, b, z] => showOA (toa c al (a, b, z))
-  | "dbla", [a, b] => showJ x (dbla c al (a, b))
-  | "froma", [a, b] => showJ x (froma c al (a, b))
-  | "nega", [a, b] => showA (negA c al (a, b))
+  | "tpl", [a, b, z] => if x.bin then "-" else showJ x (o.tpl al (a, b, z))
+  | "toa", [a, b, z] => showOA (x.toa al (a, b, z))
+  | "dbla", [a, b] => showJ x (x.dbla al (a, b))
+  | "froma", [a, b] => showJ x (x.froma al (a, b))
+  | "nega", [a, b] => showA (x.negA al (a, b))
   | "add", [a, b, z, a', b', z'] => showJ x (o.add al (a, b, z) (a', b', z'))
   | "sub", [a, b, z, a', b', z'] => showJ x (o.sub al (a, b, z) (a', b', z'))
   | "adda", [a, b, z, a', b'] => showJ x (o.adda al (a, b, z) (a', b'))
   | "suba", [a, b, z, a', b'] => showJ x (o.suba al (a, b, z) (a', b'))
-  | "addaa", [a, b, a', b'] => showOA (addAA c al (a, b) (a', b'))
-  | "subaa", [a, b, a', b'] => showOA (subAA c al (a, b) (a', b'))
+  | "addaa", [a, b, a', b'] => showOA (x.addAA al (a, b) (a', b'))
+  | "subaa", [a, b, a', b'] => showOA (x.subAA al (a, b) (a', b'))
   | _, _ => "bad-op"
 
-/-- `pair`: all routines and aliasings on one ordered pair `(P, Q)`; `u = 0` encodes `O` -/
+/-- `pair`: all routines and aliasings on one ordered pair `(P, Q)`; `u = 0` encodes `O`.
+    For binary curves `ec2AddAA/ec2SubAA` require `a`, `c` disjoint: `c == a` is skipped there. -/
 def pair (x : Ctx) (v : List Nat) : String :=
   match v with
   | [x1, y1, u1, x2, y2, u2] =>
@@ -73,9 +100,10 @@ def pair (x : Ctx) (v : List Nat) : String :=
     let q3 := scale x (x2, y2) u2
     let P := [x1, y1]; let Q := [x2, y2]
     let l3 := fun (q : P3 Nat) => [q.1, q.2.1, q.2.2]
-    let hasP := u1 % x.p ≠ 0; let hasQ := u2 % x.p ≠ 0
+    let hasP := !(x.f.eqb p3.2.2 x.f.zero); let hasQ := !(x.f.eqb q3.2.2 x.f.zero)
     let s := fun op al args => single x op al args
     let skip := fun (b : Bool) (r : String) => if b then r else "-"
+    let nb := !x.bin
     String.intercalate ";" [
       s "add" .n (l3 p3 ++ l3 q3), s "add" .ca (l3 p3 ++ l3 q3), s "add" .cb (l3 p3 ++ l3 q3),
       s "add" .ab (l3 p3 ++ l3 p3),
@@ -90,10 +118,10 @@ def pair (x : Ctx) (v : List Nat) : String :=
       skip hasP (s "dbla" .n P), skip hasP (s "dbla" .ca P),
       skip hasP (s "froma" .n P), skip hasP (s "froma" .ca P),
       skip hasP (s "nega" .n P), skip hasP (s "nega" .ca P),
-      skip (hasP && hasQ) (s "addaa" .n (P ++ Q)), skip (hasP && hasQ) (s "addaa" .ca (P ++ Q)),
-      skip (hasP && hasQ) (s "addaa" .cb (P ++ Q)), skip hasP (s "addaa" .abc (P ++ P)),
-      skip (hasP && hasQ) (s "subaa" .n (P ++ Q)), skip (hasP && hasQ) (s "subaa" .ca (P ++ Q)),
-      skip (hasP && hasQ) (s "subaa" .cb (P ++ Q)), skip hasP (s "subaa" .abc (P ++ P))]
+      skip (hasP && hasQ) (s "addaa" .n (P ++ Q)), skip (hasP && hasQ && nb) (s "addaa" .ca (P ++ Q)),
+      skip (hasP && hasQ) (s "addaa" .cb (P ++ Q)), skip (hasP && nb) (s "addaa" .abc (P ++ P)),
+      skip (hasP && hasQ) (s "subaa" .n (P ++ Q)), skip (hasP && hasQ && nb) (s "subaa" .ca (P ++ Q)),
+      skip (hasP && hasQ) (s "subaa" .cb (P ++ Q)), skip (hasP && nb) (s "subaa" .abc (P ++ P))]
   | _ => "bad-op"
 
 /-- `addmul` arguments: `x y d` triples -/
@@ -104,37 +132,53 @@ def triples : List Nat → Option (List (P2 Nat × Nat))
 
 def mulOp (x : Ctx) (W : Nat) (r : List String) : String :=
   match nums r with
-  | some [a, b, d, m] => showOA (ecMulA (ecOps x.c) W (a, b) d m)
+  | some [a, b, d, m] => showOA (ecMulA x.o W (a, b) d m)
   | _ => "bad-op"
 
 def hasOp (x : Ctx) (W : Nat) (r : List String) : String :=
   match nums r with
-  | some [a, b, d, m] => if ecHasOrderA (ecOps x.c) W (a, b) d m then "1" else "0"
+  | some [a, b, d, m] => if ecHasOrderA x.o W (a, b) d m then "1" else "0"
   | _ => "bad-op"
 
 def addMulOp (x : Ctx) (W : Nat) (r : List String) : String :=
   match nums r with
   | some v => match triples v with
-    | some ts => if ts.isEmpty then "bad-op" else showOA (ecAddMulA (ecOps x.c) W ts)
+    | some ts => if ts.isEmpty then "bad-op" else showOA (ecAddMulA x.o W ts)
     | none => "bad-op"
   | none => "bad-op"
+
+/-- field token: prime `p` in hex, or `b:m:k1:k2:k3` -/
+def ctx? (sp sA sB : String) : Option Ctx :=
+  match hexNat? sA, hexNat? sB with
+  | some A, some B =>
+    if sp.startsWith "b:" then
+      match (sp.drop 2).toString.splitOn ":" |>.mapM String.toNat? with
+      | some [m, k1, k2, k3] =>
+        if m < 3 then none else
+        let md := [m, k1, k2, k3].foldl (fun acc k => if k = 0 then acc else acc ||| (1 <<< k)) 1
+        some (mkCtx2 m md A B)
+      | _ => none
+    else
+      match hexNat? sp with
+      | some p => if p < 5 ∨ p % 2 = 0 then none else some (mkCtx p A B)
+      | none => none
+  | _, _ => none
 
 def handle (args : List String) : String :=
   match args with
   | op :: sp :: sA :: sB :: rest =>
-    match hexNat? sp, hexNat? sA, hexNat? sB with
-    | some p, some A, some B =>
-      if p < 5 ∨ p % 2 = 0 then "bad-op" else
-      let x := mkCtx p A B
+    match ctx? sp sA sB with
+    | none => "bad-op"
+    | some x =>
       match op, rest with
       | "pair", r => match nums r with
         | some v => pair x v
         | none => "bad-op"
       | "ison", [a, b] => match hexNat? a, hexNat? b with
-        | some a, some b => if isOnAW p x.c (a, b) then "1" else "0"
+        | some a, some b => if x.isOn (a, b) then "1" else "0"
         | _, _ => "bad-op"
       | "swu", [a] => match hexNat? a with
-        | some a => showA (swu p x.c (a % p))
+        | some a => if x.bin then "bad-op" else showA (swu x.p x.c (a % x.p))
         | none => "bad-op"
       | "mul", r => mulOp x 64 r
       | "mul32", r => mulOp x 32 r
@@ -149,7 +193,6 @@ def handle (args : List String) : String :=
         | some al, some v => single x op al v
         | _, _ => "bad-op"
       | _, _ => "bad-op"
-    | _, _, _ => "bad-op"
   | _ => "bad-op"
 
 end Bee2V.C06.Drv
